@@ -13,7 +13,7 @@ Lemma take_header_app (A : list (ctfline (T:=T))) (B : list ctfline) :
   Forall (fun l => is_cols l = false) A -> take_header (A ++ CLCols :: B) = A.
 Proof. induction 1 as [|l A Hl _ IH]; simpl; [reflexivity|]. rewrite Hl, IH. reflexivity. Qed.
 
-Definition chdr_body (f : ctffile (T:=T)) : list (ctfline (T:=T)) :=
+Definition chdr_head (f : ctffile (T:=T)) : list (ctfline (T:=T)) :=
   [CLText ["Channel Text File"];
    (match cf_vendor f with CEmsoft => CLText [emsoft_line] | _ => CLText ("Prj" :: cf_prj f) end);
    (match cf_vendor f with
@@ -22,20 +22,21 @@ Definition chdr_body (f : ctffile (T:=T)) : list (ctfline (T:=T)) :=
    CLText ["JobMode"; "Grid"];
    CLNum "XCells" (NI (Z.of_nat (cf_ncols f))); CLNum "YCells" (NI (Z.of_nat (cf_nrows f)));
    CLNum "XStep" (NF (cf_dx f)); CLNum "YStep" (NF (cf_dy f));
-   CLNum "AcqE1" (NI 0); CLNum "AcqE2" (NI 0); CLNum "AcqE3" (NI 0)] ++
-  map CLText (cf_misc f) ++
+   CLNum "AcqE1" (NI 0); CLNum "AcqE2" (NI 0); CLNum "AcqE3" (NI 0)].
+Definition chdr_body (f : ctffile (T:=T)) : list (ctfline (T:=T)) :=
+  chdr_head f ++ map CLText (cf_misc f) ++
   [CLPhases (Z.of_nat (List.length (cf_phases f)))] ++
   map (render_cphase (cf_vendor f)) (cf_phases f).
 
 Lemma render_chdr_body f : render_chdr f = chdr_body f ++ [CLCols].
-Proof. unfold render_chdr, chdr_body. rewrite <- !app_assoc. reflexivity. Qed.
+Proof. unfold render_chdr, chdr_body, chdr_head. rewrite <- !app_assoc. reflexivity. Qed.
 
 Lemma body_no_cols f : Forall (fun l : ctfline (T:=T) => is_cols l = false) (chdr_body f).
 Proof.
-  unfold chdr_body. repeat apply Forall_app; repeat split.
-  - destruct (cf_vendor f); repeat constructor.
+  unfold chdr_body. apply Forall_app; split; [|apply Forall_app; split; [|apply Forall_app; split]].
+  - unfold chdr_head. destruct (cf_vendor f); repeat (constructor; [reflexivity|]); constructor.
   - apply Forall_forall. intros l Hl. apply in_map_iff in Hl. destruct Hl as [m [<- _]]. reflexivity.
-  - repeat constructor.
+  - constructor; [reflexivity|constructor].
   - apply Forall_forall. intros l Hl. apply in_map_iff in Hl. destruct Hl as [m [<- _]]. reflexivity.
 Qed.
 
@@ -71,11 +72,14 @@ Lemma ctf_phases_render f (pgs : list string) :
   Ok (mkCH (map cp_name (cf_phases f)) pgs (map sg_opt (cf_phases f)) (map cp_lat (cf_phases f))).
 Proof.
   intros Hm Hp. unfold ctf_phases, chdr_body.
-  rewrite app_assoc. cbn [app]. rewrite find_phases_app.
+  rewrite app_assoc. change ([CLPhases (T:=T) (Z.of_nat (List.length (cf_phases f)))] ++
+    map (render_cphase (cf_vendor f)) (cf_phases f)) with
+    (CLPhases (T:=T) (Z.of_nat (List.length (cf_phases f))) :: map (render_cphase (cf_vendor f)) (cf_phases f)).
+  rewrite find_phases_app.
   - rewrite Nat2Z.id. rewrite <- (app_nil_r (map (render_cphase (cf_vendor f)) (cf_phases f))).
     rewrite (read_phases_render _ _ pgs [] _ Hp). reflexivity.
   - apply Forall_app; split.
-    + destruct (cf_vendor f); repeat constructor.
+    + unfold chdr_head. destruct (cf_vendor f); repeat (constructor; [reflexivity|]); constructor.
     + apply Forall_forall. intros l Hl. apply in_map_iff in Hl. destruct Hl as [m [<- Hin]].
       unfold wf_misc in Hm. rewrite Forall_forall in Hm. auto.
 Qed.
@@ -128,22 +132,22 @@ Qed.
 Lemma cncols (p : cpoint (T:=T)) pts : (11 <= ncols_of (map (render_cpt (T:=T)) (p :: pts)))%nat.
 Proof. simpl. rewrite ccell, app_length. simpl. lia. Qed.
 
-Lemma assign_ctf_plain (v : string) (rows : list (list (num (T:=T)))) :
-  String.eqb v "emsoft" = false -> (11 <= ncols_of rows)%nat ->
-  assign_ctf v ctf_column_names 0 rows [] [] =
+Lemma assign_ctf_plain (rows : list (list (num (T:=T)))) :
+  (11 <= ncols_of rows)%nat ->
+  assign_ctf false ctf_column_names 0 rows [] [] =
   Ok ([("phase_id", col 0 rows); ("x", col 1 rows); ("y", col 2 rows); ("euler1", col 5 rows);
        ("euler2", col 6 rows); ("euler3", col 7 rows)],
       [("bands", col 3 rows); ("error", col 4 rows); ("MAD", col 8 rows); ("BC", col 9 rows); ("BS", col 10 rows)]).
 Proof.
-  intros Hv Hn.
+  intros Hn.
   assert (L : forall k, (k < 11)%nat -> Nat.ltb k (ncols_of rows) = true) by (intros k Hk; apply Nat.ltb_lt; lia).
-  lazy -[ncols_of col Nat.ltb String.eqb]. rewrite !L by lia. rewrite Hv.
+  lazy -[ncols_of col Nat.ltb]. rewrite !L by lia.
   lazy -[ncols_of col]. reflexivity.
 Qed.
 
 Lemma assign_ctf_emsoft (rows : list (list (num (T:=T)))) :
   (11 <= ncols_of rows)%nat ->
-  assign_ctf "emsoft" ctf_column_names 0 rows [] [] =
+  assign_ctf true ctf_column_names 0 rows [] [] =
   Ok ([("phase_id", col 0 rows); ("x", col 1 rows); ("y", col 2 rows); ("euler1", col 5 rows);
        ("euler2", col 6 rows); ("euler3", col 7 rows)],
       [("bands", col 3 rows); ("error", col 4 rows); ("DP", col 8 rows); ("OSM", col 9 rows); ("IQ", col 10 rows)]).
@@ -162,12 +166,17 @@ Definition ctf_phaselist (f : ctffile (T:=T)) (pgs : list string) : result (list
   phaselist Op (map (fun k => Z.of_nat (S k)) (seq 0 (List.length (cf_phases f))))
             (map cp_name (cf_phases f)) (map sg_opt (cf_phases f)) pgs (map cp_lat (cf_phases f)).
 
+Lemma cpid_cols (pts : list (cpoint (T:=T))) :
+  map (fun p => if (p =? ctf_not_indexed_id)%Z then (-1)%Z else p) (map nint (col 0 (map (render_cpt (T:=T)) pts)))
+  = map cpid pts.
+Proof. rewrite ccol_pid, map_map. reflexivity. Qed.
+
 Ltac cfinish :=
   match goal with |- context [phaselist ?a ?b ?c ?d ?e ?g] => destruct (phaselist a b c d e g) end;
   [|reflexivity]; unfold cv;
   rewrite <- ?ceu_cols, <- ?ccol_x, <- ?ccol_y, <- ?ccol_bands, <- ?ccol_err, <- ?ccol_d1, <- ?ccol_d2, <- ?ccol_d3,
           <- ?ccol_mad, <- ?ccol_bc, <- ?ccol_bs;
-  unfold cpid; rewrite <- ?ccol_pid; reflexivity.
+  rewrite <- ?cpid_cols; reflexivity.
 
 (* Oxford / Bruker / MTEX (any detected vendor other than emsoft and astar):
    degrees, phase 0 = not indexed, um, standard names, extra columns ignored *)
@@ -185,7 +194,7 @@ Proof.
   intros Hm Hp Hpts He Ha. unfold parse_ctf, ctf_phaselist. rewrite header_of_render.
   rewrite (ctf_phases_render f pgs Hm Hp). unfold bind at 1.
   assert (Hn : (11 <= ncols_of (map (render_cpt (T:=T)) (cf_pts f)))%nat) by (rewrite Hpts; apply cncols).
-  rewrite (assign_ctf_plain _ _ He Hn). unfold bind at 1. cbv iota beta. rewrite Ha. unfold bind at 1.
+  rewrite He. rewrite (assign_ctf_plain _ Hn). unfold bind at 1. cbv iota beta. rewrite Ha. unfold bind at 1.
   cbn [ch_names ch_pgs ch_sgs ch_lats]. rewrite map_length.
   cfinish.
 Qed.
@@ -204,7 +213,8 @@ Proof.
   intros Hm Hp Hpts He. unfold parse_ctf, ctf_phaselist. rewrite header_of_render.
   rewrite (ctf_phases_render f pgs Hm Hp). unfold bind at 1.
   assert (Hn : (11 <= ncols_of (map (render_cpt (T:=T)) (cf_pts f)))%nat) by (rewrite Hpts; apply cncols).
-  rewrite He. rewrite (assign_ctf_emsoft _ Hn). unfold bind at 1. cbv iota beta.
+  rewrite He. replace (String.eqb "emsoft" "emsoft") with true by reflexivity.
+  rewrite (assign_ctf_emsoft _ Hn). unfold bind at 1. cbv iota beta.
   replace (String.eqb "emsoft" "astar") with false by reflexivity. unfold bind at 1.
   cbn [ch_names ch_pgs ch_sgs ch_lats]. rewrite map_length.
   cfinish.
